@@ -9,7 +9,7 @@ QUICK = ["seq2", "two_if", "catch_act", "msg_set", "par_block", "env_flow", "cat
 def main(tier, seed):
     c = Check("C11", tier, seed)
     jobs = []
-    names = QUICK if tier == "quick" else [n for n in scen.catalogue() if not n.startswith("c04:")]
+    names = QUICK if tier == "quick" else scen.flow_names()
     k = 1 if tier == "quick" else 2
     parts = 2 if tier == "quick" else 8
     for n in names:
